@@ -8,7 +8,7 @@
             inelasticity; include_secondaries}.
    Results of type option: None = the Python code raises; for choose_shower_fractions
    Some None = the Python function returns None (1000 rejected secondary draws). *)
-From Coq Require Import Reals List Bool ZArith.
+From Coq Require Import Reals List Bool ZArith Lra Lia.
 From Coquelicot Require Import Coquelicot.
 From PyrexLib Require Import RealPrims PartPrims.
 From PyrexGen Require Import Gen_particle.
@@ -255,7 +255,7 @@ Theorem levels_partition : forall roots ops, NoDup roots -> FreshSeq (init roots
 Proof. exact levels_partition_lemma. Qed.
 Print Assumptions levels_partition.
 
-Theorem absent_particles_raise : forall roots ops, NoDup roots -> FreshSeq (init roots) ops ->
+Theorem absent_particles_raise : forall roots ops,
   let e := run roots ops in
   forall p, ~ In p (iter e) ->
   get_children e p = None /\ get_parent e p = None /\ add_children e p [] = None.
